@@ -1,7 +1,29 @@
 (* A store with strictly ascending keys (what RocksDB holds and the harness hands over:
-   Model/Store.sorted_keys, decidable) stores every key once. *)
-From DnsV Require Import Base.Bytes Model.Store Proofs.BytesOrder Proofs.Store Proofs.Compile Proofs.Ctx.
+   Model/Store.sorted_keys, decidable) stores every key once.  Self-contained. *)
+From DnsV Require Import Base.Bytes Model.Store Proofs.Store Proofs.Compile Proofs.Ctx.
 Open Scope N_scope.
+
+Lemma bcmp_lt_trans_s : forall a b c, bcmp a b = Lt -> bcmp b c = Lt -> bcmp a c = Lt.
+Proof.
+  induction a as [|x a IH]; destruct b as [|y b]; destruct c as [|z c]; cbn; intros H1 H2;
+    try discriminate; try reflexivity.
+  destruct (x ?= y) eqn:Exy; try discriminate.
+  - apply N.compare_eq in Exy. subst y. destruct (x ?= z) eqn:Exz; try discriminate; try reflexivity.
+    eapply IH; eauto.
+  - destruct (y ?= z) eqn:Eyz; try discriminate.
+    + apply N.compare_eq in Eyz. subst z. rewrite Exy. reflexivity.
+    + assert (E : (x ?= z) = Lt).
+      { apply N.compare_lt_iff. eapply N.lt_trans; [exact (proj1 (N.compare_lt_iff x y) Exy) | exact (proj1 (N.compare_lt_iff y z) Eyz)]. }
+      rewrite E. reflexivity.
+Qed.
+
+Definition klt (a b : bytes) : Prop := bltb a b = true.
+Lemma klt_iff_s : forall a b, klt a b <-> bcmp a b = Lt.
+Proof. intros. unfold klt, bltb. destruct (bcmp a b); split; intros H; try reflexivity; discriminate. Qed.
+Lemma klt_trans : forall a b c, klt a b -> klt b c -> klt a c.
+Proof. intros a b c H1 H2. apply klt_iff_s in H1. apply klt_iff_s in H2. apply klt_iff_s. eapply bcmp_lt_trans_s; eauto. Qed.
+Lemma klt_irrefl : forall a, ~ klt a a.
+Proof. intros a H. apply klt_iff_s in H. rewrite bcmp_refl in H. discriminate. Qed.
 
 Lemma sorted_head_lt : forall (t : store) k v, sorted_keys ((k, v) :: t) = true ->
   forall k' v', In (k', v') t -> klt k k'.
